@@ -8,7 +8,9 @@ C13.b  [order] write<N> / read<N>: the remaining width starts at N, the loop run
 C13.c  [sib] writer and reader use identical normalised expressions for byte index, chunk start and chunk width; the writer
        consumes low bits first and only ORs into a buffer its constructor cleared; the reader deposits at an item cursor that
        advances in lock step (LSB first on both sides).
-Not decided: the value-level round trip and "a write alters only its own bits".
+C13.d  [bit provenance] for every width N = 1..32 and every start cursor: write<N> places exactly the item's N low bits at
+       [cursor, cursor+N) and changes no other bit; read<N> returns exactly those bits; both advance the cursor by N. Together:
+       any sequence of fields that fits reads back what was written, packed back to back, LSB first.
 An unrecognised shape is analysis-broken (exit 2); a recognised shape with a wrong constant/operator is a violation.
 """
 from lint import facts, ir, effects, loops, cmpdomain, cfg as cfgmod
@@ -168,6 +170,81 @@ def stream_rules(run, F, E):
             run.ob('C13.c', 'fill(a, value) sets sizeof(a) bytes of a', ok, where=f.pat, key='fill() does not cover the whole object')
 
 
+
+def parse_width(fn):
+    fi = fn.d.get('ftints') or []
+    return fi[0] if fi and fi[0] is not None else None
+
+
+def class_int(fn, i=0):
+    rec = fn.facts.rec_by_name.get(fn.cls) or {}
+    ti = rec.get('targinfo') or []
+    return ti[i].get('int') if i < len(ti) else None
+
+
+def value_level(run, F, tier):
+    """C13.d: for every field width N and every start cursor c with c + N <= capacity: write<N> places exactly the N low bits of the
+    item at buffer bits [c, c+N) (LSB first), leaves the bits below c untouched and the bits above c+N zero, and advances the
+    cursor by N; read<N> returns exactly the buffer bits [c, c+N) and advances the cursor by N. Decided by bit-provenance
+    abstract interpretation (lint/bitprov.py) -- exhaustive over (N, c), no data values involved."""
+    from lint import bitprov
+    from lint.bitprov import const_bits, to_int
+    cap = 255
+    nbytes = (cap + 7) // 8
+    writers = {parse_width(f): f for f in F.find('BitWriteStreamT', 'write') if class_int(f) == 255}
+    readers = {parse_width(f): f for f in F.find('BitReadStreamT', 'read') if class_int(f) == 255}
+    run.require(len(writers) >= 32 and len(readers) >= 32, 'w_streams does not instantiate all 32 widths (%d writers, %d readers)' % (len(writers), len(readers)))
+    cursors = range(0, cap) if tier == 'thorough' else list(range(0, 41)) + [63, 64, 100, 127, 128, 200, 222, 223, 247, 248, 254]
+    I = bitprov.Interp(F)
+    n_cases = 0
+    for N in range(1, 33):
+        item_w = 8 if N <= 8 else 16 if N <= 16 else 32
+        bad_w = bad_r = None
+        for c0 in cursors:
+            if c0 + N > cap:
+                continue
+            n_cases += 1
+            # ---- write
+            data = []
+            for by in range(nbytes):
+                data.append(tuple(('b', by * 8 + k) if by * 8 + k < c0 else 0 for k in range(8)) + (0,) * (bitprov.W - 8))
+            this = {'_cursor': const_bits(c0), '_buffer': {'_data': data}}
+            item = tuple(('i', k) if k < N else 0 for k in range(bitprov.W))
+            try:
+                I.run(writers[N], this, [item])
+            except bitprov.Refuse as e:
+                raise AnalysisBroken('write<%d> at cursor %d is outside the bit-provenance fragment: %s' % (N, c0, e))
+            if bad_w is None:
+                for p in range(nbytes * 8):
+                    got = data[p // 8][p % 8]
+                    want = ('b', p) if p < c0 else (('i', p - c0) if p < c0 + N else 0)
+                    if got != want:
+                        bad_w = {'cursor': c0, 'buffer bit': p, 'holds': str(got), 'expected': str(want)}
+                        break
+                if bad_w is None and to_int(this['_cursor']) != c0 + N:
+                    bad_w = {'cursor': c0, 'cursor after': to_int(this['_cursor']), 'expected': c0 + N}
+            # ---- read
+            data = [tuple(('b', by * 8 + k) for k in range(8)) + (0,) * (bitprov.W - 8) for by in range(nbytes)]
+            this = {'_cursor': const_bits(c0), '_buffer': {'_data': data}}
+            try:
+                res = I.run(readers[N], this, [])
+            except bitprov.Refuse as e:
+                raise AnalysisBroken('read<%d> at cursor %d is outside the bit-provenance fragment: %s' % (N, c0, e))
+            if bad_r is None:
+                for j in range(item_w):
+                    want = ('b', c0 + j) if j < N else 0
+                    if res[j] != want:
+                        bad_r = {'cursor': c0, 'result bit': j, 'holds': str(res[j]), 'expected': str(want)}
+                        break
+                if bad_r is None and to_int(this['_cursor']) != c0 + N:
+                    bad_r = {'cursor': c0, 'cursor after': to_int(this['_cursor']), 'expected': c0 + N}
+        run.ob('C13.d', 'write<%d>: item bits 0..%d land at [cursor, cursor+%d), nothing else changes, cursor += %d (all %d start cursors)' % (N, N - 1, N, N, len([c for c in cursors if c + N <= cap])),
+               bad_w is None, where=writers[N].pat, detail=bad_w, key='write<N> does not place exactly its own field')
+        run.ob('C13.d', 'read<%d>: returns buffer bits [cursor, cursor+%d), cursor += %d (all start cursors)' % (N, N, N), bad_r is None, where=readers[N].pat,
+               detail=bad_r, key='read<N> does not return exactly the field at the cursor')
+    run.count('bit-provenance cases (width x start cursor)', n_cases)
+
+
 def run(run):
     cfgs = ['PS'] if run.tier == 'quick' else ['PS', 'S', 'PSHL', 'PSHVRDT']
     jobs = [('w_shared', c, v) for c in cfgs if 'P' in c for v in facts.variants(run.tier)]
@@ -181,6 +258,11 @@ def run(run):
         stream_rules(run, F, E)
         facts.drop(F)
         cfgmod.clear_cache()
+    for v in facts.variants(run.tier):
+        F = facts.load('w_streams', 'S', v)
+        run.require(F.unknown == 0, 'unknown AST nodes')
+        value_level(run, F, run.tier)
+        facts.drop(F)
     static_units.report(run, 'C13.a', 'ubitwidth')
     from gen import nfamily
     nfamily.report(run, run.tier, 'C12.b')
@@ -188,6 +270,7 @@ def run(run):
     run.floor('C13.a', 2)
     run.floor('C13.b', 20)
     run.floor('C13.c', 20)
+    run.floor('C13.d', 64)
     run.explanation = (
         'bitWidth is decided for all 2^32 arguments by evaluating the extracted expression on the end points of the 33 regions '
         'its own threshold tests induce (the checker first verifies that the argument is used in threshold tests only). The '
